@@ -43,8 +43,11 @@ def range_number_from_counter(e, label, counter):
     number = counter.get(key, None)
 
     if number is None:
-        number = 1 + sum(1 for o in counter.keys() if o[0] == label)
-        assert number is not None
+        # the smallest number not used by a range of this kind that is still open
+        in_use = set(n for k, n in counter.items() if k[0] == label)
+        number = 1
+        while number in in_use:
+            number += 1
         counter[key] = number
 
     else:
@@ -723,32 +726,52 @@ def do_directions(part, start, end, counter):
     result = []
 
     # ending directions
-    directions = part.iter_all(
-        score.DynamicDirection,
-        start.next,
-        end.next,
-        include_subclasses=True,
-        mode="ending",
+    ending_directions = list(
+        part.iter_all(
+            score.DynamicDirection,
+            start.next,
+            end.next,
+            include_subclasses=True,
+            mode="ending",
+        )
+    )
+    directions = list(
+        part.iter_all(score.Direction, start, end, include_subclasses=True)
     )
 
-    for direction in directions:
+    # The numbers of wedges and dashes are handed out in time order (an end
+    # before a start at the same time), which is the order in which the
+    # elements appear in the file.
+    range_events = [(d.end.t, 0, d) for d in ending_directions]
+    for d in directions:
+        text = d.raw_text or d.text
+        if text in PEDAL_DIRECTIONS or text in DYN_DIRECTIONS:
+            continue
+        if getattr(d, "wedge", False) or (
+            isinstance(d, score.DynamicDirection) and d.end is not None
+        ):
+            range_events.append((d.start.t, 1, d))
+    range_numbers = {}
+    for _, kind, d in sorted(range_events, key=lambda ev: (ev[0], ev[1])):
+        label = "wedge" if getattr(d, "wedge", False) else "dashes"
+        range_numbers[(d, kind)] = range_number_from_counter(d, label, counter)
+
+    for direction in ending_directions:
         text = direction.raw_text or direction.text
         e0 = etree.Element("direction")
         e1 = etree.SubElement(e0, "direction-type")
+        number = range_numbers[(direction, 0)]
 
         if getattr(direction, "wedge", False):
-            number = range_number_from_counter(direction, "wedge", counter)
             e2 = etree.SubElement(e1, "wedge", number="{}".format(number), type="stop")
 
         else:
-            number = range_number_from_counter(direction, "dashes", counter)
             etree.SubElement(e1, "dashes", number="{}".format(number), type="stop")
 
         elem = (direction.end.t, None, e0)
         result.append(elem)
 
     tempos = part.iter_all(score.Tempo, start, end)
-    directions = part.iter_all(score.Direction, start, end, include_subclasses=True)
 
     for tempo in tempos:
         # e0 = etree.Element('direction')
@@ -775,7 +798,7 @@ def do_directions(part, start, end, counter):
         if direction.start.t < start.t
     ]
 
-    for direction in ending_pedals + list(directions):
+    for direction in ending_pedals + directions:
         text = direction.raw_text or direction.text
 
         if text in PEDAL_DIRECTIONS:
@@ -837,7 +860,7 @@ def do_directions(part, start, end, counter):
                 else:
                     wtype = "diminuendo"
 
-                number = range_number_from_counter(direction, "wedge", counter)
+                number = range_numbers[(direction, 1)]
                 e2 = etree.SubElement(
                     e1, "wedge", number="{}".format(number), type=wtype
                 )
@@ -851,7 +874,7 @@ def do_directions(part, start, end, counter):
                     and direction.end is not None
                 ):
                     e3 = etree.SubElement(e0, "direction-type")
-                    number = range_number_from_counter(direction, "dashes", counter)
+                    number = range_numbers[(direction, 1)]
                     etree.SubElement(
                         e3, "dashes", number="{}".format(number), type="start"
                     )
